@@ -4,7 +4,8 @@ Round 1 lives in /tmp/wt/out/<ID>/{a,b}; round 2 in /tmp/wt2/out/<ID>/{a,b} and 
 import json, os, shutil, sys
 DESC = json.load(open(os.path.join(os.path.dirname(__file__), "seed_desc.json")))
 SRC = {"a": ("/tmp/wt/out", "a"), "b": ("/tmp/wt/out", "b"), "c": ("/tmp/wt2/out", "a"), "d": ("/tmp/wt2/out", "b"),
-       "e": ("/tmp/wt3/out", "a"), "f": ("/tmp/wt3/out", "b")}
+       "e": ("/tmp/wt3/out", "a"), "f": ("/tmp/wt3/out", "b"),
+       "g": ("/tmp/wt5/out", "a"), "h": ("/tmp/wt5/out", "b")}
 for key, (what, needs) in DESC.items():
     pid, var = key.split("-")
     root, v = SRC[var]
@@ -16,7 +17,7 @@ for key, (what, needs) in DESC.items():
     for f in ("patch.diff", "demo.py", "notes.md"):
         if os.path.exists(os.path.join(src, f)):
             shutil.copy(os.path.join(src, f), dst)
-    json.dump({"property": pid, "origin": "independent sub-agent given only the property text and a scratch worktree of /repo" + (" (second round: asked for narrow-region changes different from the first round)" if var in "cd" else " (third round: asked for changes needing a conjunction of two specific circumstances)" if var in "ef" else ""),
+    json.dump({"property": pid, "origin": "independent sub-agent given only the property text and a scratch worktree of /repo" + (" (second round: asked for narrow-region changes different from the first round)" if var in "cd" else " (third round: asked for changes needing a conjunction of two specific circumstances)" if var in "ef" else " (fourth round: asked for threshold / numeric / unicode / order corners that a broad randomized campaign does not reach)" if var in "gh" else ""),
                "what": what, "needs": needs,
                "ran": f"tools/seeded.py {key}  (scratch clone of /repo + git apply; suite; demo with/without patch; ./check {pid} --tier quick --src <scratch>)"},
               open(os.path.join(dst, "meta.json"), "w"), indent=1)
